@@ -95,19 +95,39 @@ Definition sres {A} (f : A -> str) (r : res A) : str :=
   match r with Ok a => s2l "OK" ++ tab :: f a | Raise e => s2l "RAISE " ++ show_exn e end.
 
 Definition peos (s : str) : eosarg := match s with "I" :: r => EAInt (z_of_str r) | "S" :: r => EAStr (unhex r) | _ => EANone end.
+Definition pzmap (s : str) : list (str * Z) :=
+  map (fun e => match split_c ":" e with [k; v] => (xs k, z_of_str v) | _ => ([], 0%Z) end) (lst s).
 Definition pxin (d : data) (f : list str) : option xin :=
   match f with
-  | geo :: natm :: atm :: eos :: ninc :: dok :: _ =>
+  | geo :: natm :: atm :: eos :: ninc :: dok :: dflt :: indom :: incon :: _ =>
       Some {| x_d := d; x_geo := map xs (lst geo); x_natm := z_of_str natm;
               x_atmos := match split_c ":" atm with [a; b] => (z_of_str a, z_of_str b) | _ => (0%Z, 1%Z) end;
-              x_eos := peos eos; x_ninc := nat_of_str ninc; x_diff_ok := str_eqb dok (s2l "1") |}
+              x_eos := peos eos; x_ninc := nat_of_str ninc; x_diff_ok := str_eqb dok (s2l "1");
+              x_default := z_of_str dflt; x_indom := pzmap indom; x_incon := pzmap incon |}
+  | _ => None
+  end.
+(** the geometry op: order tag, atmosphere names, underground (name:nodes) pairs *)
+Definition pgeom (f : list str) : option geom :=
+  match f with
+  | ord :: atm :: und :: _ =>
+      Some {| gm_order := if str_eqb ord (s2l "dmplex") then BODmplex else if str_eqb ord (s2l "layer_column") then BOLayerColumn else BONone;
+              gm_atm := map xs (lst atm);
+              gm_under := map (fun e => match split_c ":" e with [k; v] => (xs k, nat_of_str v) | _ => ([], 0) end) (lst und) |}
   | _ => None
   end.
 Definition scell (o : option Z) : str := match o with None => ["N"] | Some z => show_z z end.
 
+Definition run_geom (f : list str) : str :=
+  match pgeom f with
+  | Some g => sres (fun l => joinc "," (map sx l)) (block_name_list g)
+  | None => s2l "BADCASE"
+  end.
 Definition run_case (line : str) : str :=
   match fields line with
-  | op :: mp :: a1 :: a2 :: rest =>
+  | op :: rest0 =>
+  if str_eqb op (s2l "bnl") then run_geom rest0 else
+  match rest0 with
+  | mp :: a1 :: a2 :: rest =>
       match pdata rest with
       | None => s2l "BADCASE"
       | Some d =>
@@ -125,10 +145,16 @@ Definition run_case (line : str) : str :=
                    if str_eqb op (s2l "eos") then l_eos
                    else if str_eqb op (s2l "rocks") then l_rocks
                    else if str_eqb op (s2l "srcs") then l_srcs
-                   else if str_eqb op (s2l "exp") then l_eos ++ s2l " | " ++ l_rocks ++ s2l " | " ++ l_srcs
+                   else if str_eqb op (s2l "exp") then
+                     let l_init := sres (fun l => joinc "," (map show_z l)) (initial_cells x) in
+                     let l_bdy := sres (fun l => joinc ";" (map (fun e => sx (fst e) ++ ":" :: show_z (fst (snd e)) ++ ":" :: joinc "," (map show_z (snd (snd e)))) l))
+                                       (boundary_faces x) in
+                     l_eos ++ s2l " | " ++ l_rocks ++ s2l " | " ++ l_srcs ++ s2l " | " ++ l_init ++ s2l " | " ++ l_bdy
                    else s2l "BADCASE"
                end
       end
+  | _ => s2l "BADCASE"
+  end
   | _ => s2l "BADCASE"
   end.
 
